@@ -1326,6 +1326,9 @@ func serverEngine(seed uint64, tier string, args []string) {
 		for n := 0; n < 6; n++ {
 			siblingServersCase(seed, n)
 		}
+		for n := 0; n < 8; n++ {
+			growListCase(seed, n) // srv_growlist.go
+		}
 	}
 	procBase = runtime.NumGoroutine()
 	for i := from; i < len(cases); i++ {
